@@ -16,9 +16,16 @@
 package c04
 
 import (
+	"bufio"
+	"encoding/json"
 	"fmt"
+	"os"
+	"os/exec"
+	"path/filepath"
 	"sort"
+	"strconv"
 	"strings"
+	"time"
 
 	"verif/harness/engx"
 	"verif/harness/internal/hx"
@@ -82,6 +89,19 @@ func Run(c *hx.Ctx) error {
 	switch c.Arg("mode", "all") {
 	case "probecompact":
 		return probeCompaction(c)
+	case "instrument": // development aid: write the instrumented copies and the overlay
+		ov, sites, err := buildLockPointOverlay(repoRoot(), c.Arg("dir", "/var/tmp/c04-lp"))
+		fmt.Fprintln(os.Stderr, "overlay:", ov, "sites:", len(sites), err)
+		return err
+	case "lp": // lock-point schedules; only the binary built from the instrumented copies gets here
+		r := hx.NewRng(c.Seed ^ 0x4c50)
+		n := c.Budget(60, 1500)
+		for i := 0; i < n; i++ {
+			if err := runLPHistory(c, r.Fork(), i); err != nil {
+				return err
+			}
+		}
+		return nil
 	case "directed":
 		n := c.Budget(5, 20)
 		for i := 0; i < n; i++ {
@@ -91,7 +111,7 @@ func Run(c *hx.Ctx) error {
 		}
 		return nil
 	}
-	c.Stats.Rule = "a history counts as non-trivial when at least one query ran while a flush was stopped between switch and dropSnapshot, and in addition a write was acknowledged while a flush was stopped or a query ran while a compaction / out-of-order merge was stopped at one of its file-system mutations"
+	c.Stats.Rule = "a history counts as non-trivial when at least one query ran while a flush was stopped between switch and dropSnapshot, and in addition a write was acknowledged while a flush was stopped or a query ran while a compaction / out-of-order merge was stopped at one of its file-system mutations; a lock-point history (second part) counts when its first operation was actually frozen at a schedule point while the second one ran"
 	r := hx.NewRng(c.Seed)
 	n := c.Budget(30, 400)
 	for i := 0; i < n; i++ {
@@ -99,5 +119,126 @@ func Run(c *hx.Ctx) error {
 			return err
 		}
 	}
+	if c.Arg("lp", "on") == "off" {
+		return nil
+	}
+	return runLockPointPart(c, 4*n)
+}
+
+func harnessDir() string {
+	if r := os.Getenv("VERIF_ROOT"); r != "" {
+		return filepath.Join(r, "harness")
+	}
+	return "/verif/harness"
+}
+
+// runLockPointPart builds the second binary (this harness over the instrumented copies of the
+// anchored files, see instrument.go), runs the lock-point schedules in it and takes its op
+// lines, answers, violations and counts over into this run.
+func runLockPointPart(c *hx.Ctx, n int) error {
+	base := os.Getenv("VERIF_SCRATCH")
+	if base == "" {
+		base = "/var/tmp/verif-scratch"
+	}
+	dir := filepath.Join(base, fmt.Sprintf("c04-lp-%d", os.Getpid()))
+	defer os.RemoveAll(dir)
+	t0 := time.Now()
+	ov, sites, err := buildLockPointOverlay(repoRoot(), filepath.Join(dir, "src"))
+	if err != nil {
+		return fmt.Errorf("lock-point instrumentation: %v", err)
+	}
+	var flags []string
+	for _, f := range strings.Fields(os.Getenv("GOFLAGS")) {
+		if !strings.HasPrefix(f, "-overlay=") {
+			flags = append(flags, f)
+		}
+	}
+	bin := filepath.Join(dir, "ogh-lp")
+	build := exec.Command("go", "build", "-overlay", ov, "-tags", "verif c04", "-o", bin, "./cmd/ogh")
+	build.Dir = harnessDir()
+	build.Env = append(os.Environ(), "GOFLAGS="+strings.Join(flags, " "))
+	if out, err := build.CombinedOutput(); err != nil {
+		return fmt.Errorf("lock-point binary does not build: %v\n%s", err, out)
+	}
+	c.Stats.Hist["lp:instrumented-sites"] = len(sites)
+	buildS := time.Since(t0).Seconds()
+	out := filepath.Join(dir, "out")
+	run := exec.Command(bin, "C04", "-D", "mode=lp", "-seed", fmt.Sprint(c.Seed), "-tier", c.Tier, "-n", fmt.Sprint(n), "-out", out)
+	run.Env = append(os.Environ(), "VERIF_SCRATCH="+filepath.Join(dir, "scratch"))
+	logf, _ := os.Create(filepath.Join(dir, "log.txt"))
+	run.Stdout, run.Stderr = logf, logf
+	err = run.Run()
+	logf.Close()
+	if err != nil {
+		tail, _ := os.ReadFile(filepath.Join(dir, "log.txt"))
+		if len(tail) > 3000 {
+			tail = tail[len(tail)-3000:]
+		}
+		return fmt.Errorf("lock-point run failed: %v\n%s", err, tail)
+	}
+	// ---- take the child's results over
+	readLines := func(name string) ([]string, error) {
+		f, err := os.Open(filepath.Join(out, name))
+		if err != nil {
+			return nil, err
+		}
+		defer f.Close()
+		var ls []string
+		sc := bufio.NewScanner(f)
+		sc.Buffer(make([]byte, 1<<20), 1<<28)
+		for sc.Scan() {
+			ls = append(ls, sc.Text())
+		}
+		return ls, sc.Err()
+	}
+	ops, err := readLines("ops.txt")
+	if err != nil {
+		return err
+	}
+	impl, err := readLines("impl.out")
+	if err != nil {
+		return err
+	}
+	if len(ops) != len(impl) {
+		return fmt.Errorf("lock-point run: %d op lines, %d answers", len(ops), len(impl))
+	}
+	offset := 0
+	for i := range ops {
+		ln := c.Emit(ops[i], impl[i])
+		if i == 0 {
+			offset = ln - 1
+		}
+	}
+	viols, _ := readLines("viol.out")
+	for _, v := range viols {
+		parts := strings.SplitN(v, "\t", 3)
+		if len(parts) != 3 {
+			continue
+		}
+		ln, _ := strconv.Atoi(parts[0])
+		c.Violation(offset+ln, parts[1], parts[2])
+	}
+	var st hx.Stats
+	if b, err := os.ReadFile(filepath.Join(out, "stats.json")); err == nil {
+		_ = json.Unmarshal(b, &st)
+	}
+	for k, v := range st.Hist {
+		c.Stats.Hist[k] += v
+	}
+	c.Stats.Evaluations += st.Evaluations
+	c.Stats.DistinctNontrivial += st.DistinctNontrivial
+	for i, s := range st.Samples {
+		if i < 2 {
+			c.Stats.Samples = append(c.Stats.Samples, s)
+		}
+	}
+	c.Stats.Notes = append(c.Stats.Notes, fmt.Sprintf("lock-point part: %d sites instrumented, binary built in %.0f s, %d histories", len(sites), buildS, st.Evaluations))
 	return nil
+}
+
+func repoRoot() string {
+	if r := os.Getenv("VERIF_REPO"); r != "" {
+		return r
+	}
+	return "/repo"
 }
